@@ -891,10 +891,23 @@ func (sw *SlidingWindow) handleLateData(eventTime time.Time, allowedLateness tim
 	// that covers it and is still open, not just to one of them (which one used to
 	// depend on map iteration order). Collect them first — triggerLateUpdateLocked
 	// releases the lock while it delivers — and re-emit each, oldest first.
+	//
+	// The late row is the one Add has just appended to sw.data (the lock was held
+	// since). Record it in the snapshot of every covering window now: while one
+	// update is being delivered the lock is released, and a window firing in that
+	// gap evicts rows from sw.data that the updates still to come — the remaining
+	// covering windows, or an update held back behind a first firing — need.
+	var late *types.Row
+	if n := len(sw.data); n > 0 && sw.data[n-1].Timestamp.Equal(eventTime) {
+		late = &sw.data[n-1]
+	}
 	var slots []*types.TimeSlot
 	for _, info := range sw.triggeredWindows {
 		if info.slot.Contains(eventTime) {
 			slots = append(slots, info.slot)
+			if late != nil {
+				info.snapshotData = append(info.snapshotData, types.Row{Data: late.Data, Timestamp: late.Timestamp, Slot: info.slot})
+			}
 		}
 	}
 	sort.Slice(slots, func(i, j int) bool { return slots[i].End.Before(*slots[j].End) })
